@@ -769,6 +769,41 @@ Proof.
     apply (read_line_at_eof FInv up_f FInv_pos FInv_end FInv_setpos up_f_setpos FInv_shift); assumption.
 Qed.
 
+(* the first mmap fails: read() takes over at the descriptor's offset, nothing before it is delivered *)
+Theorem file_mmap_failure_records page cap file off script d cr :
+  1 <= cap -> off <= length file -> no_err script = true -> detect_magic (skipn off file) = false ->
+  exists s sf, fp_open_file_mmap_fails page cap file off script = Ok s /\
+    read_all d cr s = (Ok (records d cr (skipn off file)), sf) /\
+    (forall d' cr', read_line d' cr' sf = (RlEOF, sf)).
+Proof.
+  intros Hc Hoff Hne Hm. unfold fp_open_file_mmap_fails, mmap_shift_failing.
+  cbn [fp_pos fp_moff fp_page fp_mapped fp_cap fp_file fp_os fp_rc fp_maps].
+  rewrite andb_false_r. rewrite Nat.add_0_l.
+  match goal with |- context [transition_to_read ?st] => set (st0 := st) end.
+  assert (Hsrc : os_src (fp_os st0) = skipn off file /\ no_err (os_script (fp_os st0)) = true).
+  { unfold st0. cbn [fp_os]. destruct (off =? 0) eqn:E; simpl; auto. }
+  destruct Hsrc as [Hs0 Hn0].
+  unfold transition_to_read.
+  destruct (read_factory_spec (fp_os st0) Hn0) as (rc & o' & E & Hpd & Hwf & Hne'); [rewrite Hs0; exact Hm|].
+  rewrite E.
+  match goal with |- context [read_shift ?st] => set (s1 := st) end.
+  assert (HI1 : RInv s1).
+  { unfold RInv, s1, st0. simpl. repeat split; auto; try lia; try discriminate. }
+  destruct (read_shift_spec s1 HI1 eq_refl) as (s & l & Es & HI & Hw & Hup & _).
+  exists s.
+  assert (Hr : rest up_r s = skipn off file).
+  { unfold rest. rewrite Hw. unfold window at 1, s1 at 1 2. simpl skipn. simpl app.
+    rewrite <- Hup. unfold up_r, s1. cbn [fp_rc fp_os]. rewrite Hpd. exact Hs0. }
+  destruct (read_all_loop_spec RInv up_r RInv_pos RInv_end RInv_setpos up_r_setpos RInv_shift RInv_fuel
+              (pending s + length (fp_buf s) + 2) d cr s HI) as (sf & Ea & HIf & Hrf & Hef).
+  { unfold rest, window, pending, up_r, rc_pending. rewrite !app_length, skipn_length.
+    destruct (fp_rc s); simpl; lia. }
+  exists sf. split; [exact Es|]. split.
+  - unfold read_all. rewrite Ea, Hr. reflexivity.
+  - intros d' cr'. unfold read_line, line_fuel. rewrite Nat.add_succ_r.
+    apply (read_line_at_eof RInv up_r RInv_pos RInv_end RInv_setpos up_r_setpos RInv_shift); assumption.
+Qed.
+
 (* the window the constructor computes is always admissible *)
 Lemma initial_cap_ok page min_buffer : 1 <= page -> page <= initial_cap page min_buffer /\ 1 <= initial_cap page min_buffer.
 Proof. intros H. unfold initial_cap, fp_init_add, fp_init_min_pages. nia. Qed.
